@@ -1,15 +1,25 @@
-"""Bounded Kani twin of c00_tree: the four REAL iterators of src/iter/tree.rs (and the provided accessors
-n_children / nth_child, also through the mirroring adaptor Rtl) run to exhaustion on ALL ordered tree
-shapes with at most 4 (quick) / 5 (thorough) nodes, every node announced either by its arity kind
-(Nullary/Unary/Binary/Ternary) or as Nary; compared item by item (node, index, child_indices, parent,
-n_children_yielded, is_complete) with recursive oracle traversals written in the harness.
-BOUNDED: never counted as proved; the unbounded statement is the Verus unit c00_tree."""
+"""Bounded Kani twin of c00_tree on the REAL iterators of src/iter/tree.rs, with a harness-local TreeLike
+implementation over level-order arity tables (all five `Tree` kinds; every node announced by its arity kind and,
+in a second run, as Nary).  Oracles: recursive textbook traversals written in the harness.
+
+What is feasible in CBMC (measured, 10 GB cap):
+  * accessors n_children / nth_child, also through the mirroring adaptor Rtl: SYMBOLIC over all ordered trees with
+    <= 5 nodes, any node, any child index (2 s);
+  * the shape tables used below are complete: every symbolic ordered tree with <= 5 nodes is in them (1 s);
+  * PreOrderIter run to exhaustion on all shapes with 1..5 nodes (1 s, 1 s, 3 s, 13 s, 58 s);
+  * VerbosePreOrderIter on all shapes with 1..2 nodes (1 s, 33 s); 3 nodes exceeds 10 GB;
+  * PostOrderIter / RtlPostOrderIter only on the single-leaf tree (1 s): their stack is a Vec of items that own a Vec
+    and `next` is recursive; the 2-node tree exceeds 12 GB after 10 min.  The reordering mutants of the post-order
+    iterators are therefore caught by the Verus unit c00_tree only (unbounded), the index off-by-one by both.
+BOUNDED: never counted as proved."""
 NAME = "k00_tree"
 ENGINE = "kani"
 TRAVERSAL = ("C01", "C02", "C03", "C04", "C07", "C09", "C17", "C19", "C20")
-PROPS = TRAVERSAL + ("C11",)
+HPROPS = TRAVERSAL + ("C11",)
+PROPS = HPROPS
 INJECT = [("src/iter/tree.rs", "contracts/kani/k00_tree.rs")]
-TRUSTED = ["harness-local TreeLike implementation `Nd` over a parent array (tree shapes with parent[i] < i cover all ordered trees: number a tree in pre-order)",
+TRUSTED = ["harness-local TreeLike implementation `Nd` (one-byte node handle, shape in a `static mut`) over level-order arity tables; "
+           "the tables are checked complete against the symbolic definition of an ordered tree by harness shape_tables_complete",
            "std Vec / Option executed as compiled by Kani"]
 DROPPED = []
 _P = ",".join(TRAVERSAL)
@@ -26,15 +36,23 @@ _VERB = _tags("oracle.visits_all", "verbose.no_extra_item", "verbose.order", "ve
 _ACC = _tags("n_children.counts_children", "rtl.n_children", "nth_child.some_iff_in_range", "nth_child.is_nth",
              "rtl.nth_child_some_iff_in_range", "rtl.nth_child_is_mirrored")
 
+_TAB = ["%s:shapes.table_complete" % _P]
+
+
+def _h(name, fn, bound, tags, tier="quick"):
+    return dict(name="verif_k00_tree::" + name, fn=fn, props=HPROPS, kind="bounded", bound=bound, tier=tier, tags=tags)
+
+
 HARNESSES = [
-    dict(name="accessors_le5", fn="TreeLike::{n_children, nth_child}, Rtl::{as_node, nary_index}", props=PROPS, kind="bounded",
-         bound="all ordered trees with <= 5 nodes, any node, any child index <= 5", tier="quick", tags=_ACC),
-    dict(name="pre_order_le4", fn="PreOrderIter::next", props=PROPS, kind="bounded", bound="all ordered trees with <= 4 nodes", tier="quick", tags=_PRE),
-    dict(name="post_order_le4", fn="PostOrderIter::next", props=PROPS, kind="bounded", bound="all ordered trees with <= 4 nodes", tier="quick", tags=_POST("post")),
-    dict(name="rtl_post_order_le4", fn="RtlPostOrderIter::next", props=PROPS, kind="bounded", bound="all ordered trees with <= 4 nodes", tier="quick", tags=_POST("rtl")),
-    dict(name="verbose_pre_order_le4", fn="VerbosePreOrderIter::next", props=PROPS, kind="bounded", bound="all ordered trees with <= 4 nodes", tier="quick", tags=_VERB),
-    dict(name="pre_order_le5", fn="PreOrderIter::next", props=PROPS, kind="bounded", bound="all ordered trees with <= 5 nodes", tier="thorough", tags=_PRE),
-    dict(name="post_order_le5", fn="PostOrderIter::next", props=PROPS, kind="bounded", bound="all ordered trees with <= 5 nodes", tier="thorough", tags=_POST("post")),
-    dict(name="rtl_post_order_le5", fn="RtlPostOrderIter::next", props=PROPS, kind="bounded", bound="all ordered trees with <= 5 nodes", tier="thorough", tags=_POST("rtl")),
-    dict(name="verbose_pre_order_le5", fn="VerbosePreOrderIter::next", props=PROPS, kind="bounded", bound="all ordered trees with <= 5 nodes", tier="thorough", tags=_VERB),
+    _h("accessors_le5", "TreeLike::{n_children, nth_child}, Rtl::{as_node, nary_index}", "all ordered trees with <= 5 nodes (symbolic), any node, any child index <= 5", _ACC),
+    _h("shape_tables_complete", "harness tables", "all ordered trees with <= 5 nodes (symbolic)", _TAB),
+    _h("pre_order_n1", "PreOrderIter::next", "the 1-node tree", _PRE),
+    _h("pre_order_n2", "PreOrderIter::next", "the 2-node tree", _PRE),
+    _h("pre_order_n3", "PreOrderIter::next", "all 2 ordered trees with 3 nodes", _PRE),
+    _h("pre_order_n4", "PreOrderIter::next", "all 5 ordered trees with 4 nodes", _PRE),
+    _h("pre_order_n5", "PreOrderIter::next", "all 14 ordered trees with 5 nodes", _PRE),
+    _h("post_order_n1", "PostOrderIter::next", "the 1-node tree", _POST("post")),
+    _h("rtl_post_order_n1", "RtlPostOrderIter::next", "the 1-node tree", _POST("rtl")),
+    _h("verbose_n1", "VerbosePreOrderIter::next", "the 1-node tree", _VERB),
+    _h("verbose_n2", "VerbosePreOrderIter::next", "the 2-node tree", _VERB),
 ]
